@@ -354,6 +354,49 @@ def h2_session(seed):
     return desc, judge(desc, sess.rig, driver, recs, counter, log)
 
 
+def server_close_midresponse_case(seed):
+    """Both real TCPServer classes: the application streams its response before the chunked request body is complete, the
+    client then sends what is not a chunk, the server gives the connection up and closes it; the application, busy elsewhere,
+    goes on sending.  Those sends are accepted silently, one disconnect, one access record."""
+    from . import c16
+    from . import rworker as W
+
+    rng = random.Random(seed)
+    garbage = rng.choice([b"zz\r\nnot a chunk\r\n", b"-1\r\n", b"5\r\nab"])
+    later = rng.choice([1, 2, 3])
+    steps = [("send", {"type": "http.response.start", "status": 200, "headers": []}),
+             ("send", {"type": "http.response.body", "body": b"first", "more_body": True}), ("sleep", 2.0)]
+    for i in range(later):
+        steps.append(("send", {"type": "http.response.body", "body": b"more%d" % i, "more_body": i < later - 1}))
+    steps.append(("recv_all",))
+    script = [("send", b"POST /u HTTP/1.1\r\nHost: x\r\nTransfer-Encoding: chunked\r\n\r\n3\r\nabc\r\n"), ("sleep", 0.5),
+              ("send", garbage), ("sleep", 4.0)]
+    desc = {"seed": seed, "carrier": "h1", "fault": "server-close-mid-response", "garbage": repr(garbage), "later_sends": later}
+    fails = []
+    for backend, run in (("asyncio", W.run_asyncio), ("trio", W.run_trio)):
+        cfg = R.make_config(())
+        logged = []
+        cfg._log = R.RecLog(logged)
+        cfg.keep_alive_timeout = 30.0
+        res = run(c16.scripted([steps]), cfg, script, tail=60.0)
+        apps = res["app"]
+        if not apps:
+            fails.append({"signature": "no-application", "backend": backend, "desc": desc})
+            continue
+        sends = apps[0]["sends"]
+        if any(x != "ok" for x in sends):
+            fails.append({"signature": "send-raised:" + str(next(x for x in sends if x != "ok")), "what": f"{backend}: send() results {sends}", "desc": desc})
+        discs = [m["type"] for m in apps[0]["received"] if m["type"] == "http.disconnect"]
+        if len(discs) != 1:
+            fails.append({"signature": f"disconnects:{len(discs)}", "what": f"{backend}: received {[m['type'] for m in apps[0]['received']]}", "desc": desc})
+        n_access = sum(1 for x in logged if x[0] == "log.access")
+        if n_access != 1:
+            fails.append({"signature": f"access-records:{n_access}", "what": f"{backend}: {n_access} access records", "desc": desc})
+        if res["handler_error"] is not None or res["handler_done"] is None:
+            fails.append({"signature": "handler-error", "what": f"{backend}: {res['handler_error']}", "desc": desc})
+    return desc, fails
+
+
 def run(ctx):
     rng = ctx.rng
     cases, metas = [], []
@@ -376,7 +419,7 @@ def run(ctx):
         disagreements.extend({"case": metas[k]} for k in failing[4:30])
     oracle_failures, descs = [], []
     for fn, count in ((h1_session, ctx.scale(800, 8000, 2500)), (ws_session, ctx.scale(600, 4000, 1200)),
-                      (h2_session, ctx.scale(500, 4000, 1200))):
+                      (h2_session, ctx.scale(500, 4000, 1200)), (server_close_midresponse_case, ctx.scale(6, 60, 20))):
         for i in range(count):
             d, f = fn(ctx.seed * 32452843 + i)
             descs.append(d)
